@@ -157,7 +157,7 @@ def check(ctx):
         runner.run_job(ctx, _job(ctx, name, t))
         paths.append(t)
     st = _stats(paths)
-    st["binding_selftest"] = selftest(ctx, paths[1])
+    st["binding_selftest"] = selftest(ctx, paths[1]) if not ctx.violations else {"skipped": "violations reported"}
     ctx.trusted += ["harness/prefix.go: message construction through the codec (ToBytes/FromBytes both ways), prefix -> block index / base / length (math/big)",
                     "TLC evaluation of PrefixTrace guards"]
     ctx.assumptions += ["messages carry a client identifier and distinct IAIDs", "leases never expire within a run (the code has no expiry/GC; one hour lifetimes)",
